@@ -670,6 +670,28 @@ class Evaluator:
             p.env[target.id] = v
         elif isinstance(target, (ast.Tuple, ast.List)):
             n = len(target.elts)
+            # the same at the syntax level, so that helper calls in the element are inlined like anywhere else: evaluate the element once per item
+            if (isinstance(value_node, (ast.GeneratorExp, ast.ListComp)) and len(value_node.generators) == 1 and not value_node.generators[0].ifs and not value_node.generators[0].is_async
+                    and isinstance(value_node.generators[0].target, ast.Name) and not any(isinstance(e, ast.Starred) for e in target.elts)):
+                g_ = value_node.generators[0]
+                items = None
+                if isinstance(g_.iter, (ast.Tuple, ast.List)) and len(g_.iter.elts) == n and not any(isinstance(e, ast.Starred) for e in g_.iter.elts):
+                    items = [self.expr(e, p) for e in g_.iter.elts]
+                elif isinstance(g_.iter, ast.Name) and g_.iter.id in p.env and p.env[g_.iter.id][0] in ("tuple", "list") and len(p.env[g_.iter.id][1]) == n and not any(x[0] == "star" for x in p.env[g_.iter.id][1]):
+                    items = list(p.env[g_.iter.id][1])
+                if items is not None:
+                    nm_ = g_.target.id
+                    saved_ = p.env.get(nm_, None)
+                    had_ = nm_ in p.env
+                    outs_ = []
+                    for it_ in items:
+                        p.env[nm_] = it_
+                        outs_.append(self.expr(value_node.elt, p))
+                    if had_:
+                        p.env[nm_] = saved_
+                    else:
+                        p.env.pop(nm_, None)
+                    v = ("tuple", tuple(outs_))
             # a, b, c = (f(x) for x in (p, q, r)): a comprehension over a display of the same length, unpacked — element by element
             if (v[0] == "comp" and v[1] in ("gen", "list") and len(v[4]) == 1 and not v[4][0][2] and v[4][0][1][0] in ("list", "tuple") and len(v[4][0][1][1]) == n
                     and not any(x[0] == "star" for x in v[4][0][1][1]) and isinstance(v[4][0][0], tuple) and v[4][0][0][0] == "bound"):
@@ -689,7 +711,7 @@ class Evaluator:
                     elif v[0] == "loopvar" and not any(isinstance(e, ast.Starred) for e in target.elts):
                         self.assign(t, ("loopvar", v[1], v[2], tuple(v[3]) + (i,)), p, st, None)  # a, b = pair  ==  for a, b in ...
                     else:
-                        self.assign(t, ("sub", v, const(i)), p, st, None)
+                        self.assign(t, self._path_split_part(v, const(i)) or ("sub", v, const(i)), p, st, None)
         elif isinstance(target, ast.Attribute):
             base = self.expr(target.value, p)
             p.effects.append(Effect("store_attr", base, target.attr, v, node=st))
@@ -1192,7 +1214,33 @@ class Evaluator:
         else:
             self.assign(target, v, p, st, None)
 
+    @staticmethod
+    def _log_and_reraise(h):
+        """An except clause that only writes DEBUG messages and re-raises the exception it caught (bare `raise`)."""
+        if not h.body or not (isinstance(h.body[-1], ast.Raise) and h.body[-1].exc is None and h.body[-1].cause is None):
+            return False
+        for s_ in h.body[:-1]:
+            if not (isinstance(s_, ast.Expr) and isinstance(s_.value, ast.Call) and isinstance(s_.value.func, ast.Attribute) and s_.value.func.attr == "debug"
+                    and isinstance(s_.value.func.value, ast.Name) and not any(isinstance(k_.value, ast.Call) for k_ in s_.value.keywords)
+                    and not any(isinstance(x_, (ast.Call, ast.Subscript, ast.Await)) for a_ in s_.value.args for x_ in ast.walk(a_))):
+                return False
+        return True
+
     def s_Try(self, st, p, loops):
+        if st.handlers and all(self._log_and_reraise(h) for h in st.handlers):
+            # try: BODY / except E: <debug message>; raise / else: ELSE  ==  BODY; ELSE  (the exception leaves unchanged either way)
+            out_ = self.block(list(st.body) + list(st.orelse), [p], loops)
+            if st.finalbody:
+                out2_ = []
+                for q_ in out_:
+                    res_ = q_.result
+                    q_.result = None
+                    for r_ in self.block(list(st.finalbody), [q_], loops):
+                        if r_.result is None:
+                            r_.result = res_
+                        out2_.append(r_)
+                out_ = out2_
+            return out_
         uid = self.uid()
         snaps = []  # (stmt index, Path snapshot)
 
@@ -1354,6 +1402,9 @@ class Evaluator:
                     return hit[-1]  # {"a": x}["a"] is x
             if base_t[0] in ("tuple", "list") and idx_t[0] == "const" and isinstance(idx_t[1], int) and not isinstance(idx_t[1], bool) and -len(base_t[1]) <= idx_t[1] < len(base_t[1]) and not any(x[0] == "star" for x in base_t[1]):
                 return base_t[1][idx_t[1]]
+            sp_ = self._path_split_part(base_t, idx_t)
+            if sp_ is not None:
+                return sp_
             if M_is_call(base_t) and base_t[1][0] == "attr" and base_t[1][2] == "groupdict" and not base_t[2] and not base_t[3] and idx_t[0] == "const" and isinstance(idx_t[1], str):
                 return ("call", ("attr", base_t[1][1], "group"), (idx_t,), ())  # m.groupdict()["name"] is m.group("name")
             t = ("sub", base_t, idx_t)
@@ -1456,6 +1507,13 @@ class Evaluator:
     # -- calls ---------------------------------------------------------------
     _FACTORIES = ("operator.methodcaller", "operator.attrgetter", "operator.itemgetter", "functools.partial")
 
+    def _path_split_part(self, base_t, idx_t):
+        """os.path.split(p)[0] is os.path.dirname(p), [1] is os.path.basename(p) (that is how the library defines them)."""
+        if (M_is_call(base_t) and base_t[1][0] == "attr" and base_t[1][2] == "split" and len(base_t[2]) == 1 and not base_t[3] and idx_t[0] == "const" and idx_t[1] in (0, 1)
+                and self.ext_qualname(base_t[1]) in ("os.path.split", "posixpath.split", "ntpath.split")):
+            return ("call", ("attr", base_t[1][1], "dirname" if idx_t[1] == 0 else "basename"), base_t[2], ())
+        return None
+
     def ext_qualname(self, t):
         """Dotted name of an object from outside the package (through any import style), or None."""
         if not isinstance(t, tuple) or not t:
@@ -1521,6 +1579,8 @@ class Evaluator:
         if f == ("builtin", "open") and len(args) == 1 and any(k == "mode" for k, _ in kwargs):
             args = list(args) + [v for k, v in kwargs if k == "mode"]
             kwargs = [(k, v) for k, v in kwargs if k != "mode"]
+        if f[0] == "attr" and f[2] == "enter_context" and len(args) == 1 and not kwargs and M_is_call(args[0]) and args[0][1] == ("builtin", "open"):
+            return args[0]  # stack.enter_context(open(...)): the file object itself (a file's __enter__ returns the file), closed when the stack unwinds
         if f == ("builtin", "len") and len(args) == 1 and not kwargs and args[0][0] == "global":
             # the length of a module-level constant table is a constant (`N = len(TABLE)` hoisted into a name and `len(TABLE)` in place are one term);
             # in-place changes of module-level objects are the global-state rule's business
@@ -1619,7 +1679,7 @@ class Evaluator:
         p.effects.append(Effect("call", t, node=node, maybe=maybe))
         if callee is not None and self.inlinable(callee[0]):
             stats = _INLINE_STATS.setdefault(id(self.p), {"ok": set(), "fail": set()})
-            r = NotImplemented if maybe else self.inline(callee[0], callee[1], t, p, node)
+            r = self.inline(callee[0], callee[1], t, p, node, maybe=maybe)
             if r is not NotImplemented:
                 stats["ok"].add(callee[0].qualname)
                 return r
@@ -1795,7 +1855,7 @@ class Evaluator:
             cache[key] = (paths, ev)
         return cache[key]
 
-    def inline(self, callee, skip, call_term, p, node):
+    def inline(self, callee, skip, call_term, p, node, maybe=False):
         """Replace a call of a non-anchor package function by one of its paths (chosen by the
         statement driver), with parameters substituted by the argument terms."""
         try:
@@ -1846,6 +1906,11 @@ class Evaluator:
                 except AnalysisError:
                     return NotImplemented
         k = len(paths)
+        if maybe:
+            # conditionally evaluated position (comprehension element, short-circuit operand): only a helper that is one straight expression —
+            # a single path, no decisions, nothing stored — can be put in place there
+            if k != 1 or paths[0].conds or paths[0].result is None or paths[0].result[0] != "return" or any(e.kind not in ("call", "subscript") for e in paths[0].effects):
+                return NotImplemented
         if k == 1:
             idx = 0
         else:
@@ -1861,6 +1926,8 @@ class Evaluator:
         for e in cp.effects:
             ne = sub.effect(e)
             ne.origin = getattr(e, "origin", None) or callee
+            if maybe:
+                ne.maybe = True
             p.effects.append(ne)
         # mutations of arguments that are caller locals (list.extend on a parameter ...)
         for pn, a_node in zip(params, getattr(node, "args", [])):
